@@ -262,7 +262,8 @@ impl ApplyOp for i64 {
     }
     fn apply_unary_op(&self, op: UnOp) -> Result<Self::Target, Self::Error> {
         match op {
-            UnOp::Neg => Ok(Primitive::Integer(-self)),
+            //the minimum has no positive counterpart
+            UnOp::Neg => checked_i64(self.checked_neg(), BinOp::Sub),
             UnOp::Not => Err(OperatorError::unsupported_un_operation(
                 op,
                 PrimitiveKind::Integer,
@@ -340,7 +341,8 @@ impl ApplyOp for u64 {
     }
     fn apply_unary_op(&self, op: UnOp) -> Result<Self::Target, Self::Error> {
         match op {
-            UnOp::Neg => Ok(Primitive::Integer(-(*self as i64))),
+            //values above i64::MAX + 1 have no negative counterpart
+            UnOp::Neg => checked_i64(0i64.checked_sub_unsigned(*self), BinOp::Sub),
             UnOp::Not => Err(OperatorError::unsupported_un_operation(
                 op,
                 PrimitiveKind::PositiveInteger,
